@@ -33,14 +33,16 @@ RULE = ("values of all eight record kinds built from real types (chunks with 0/1
         "true hash, another content's hash or garbage; value as bin / str / int array; extra, missing, duplicated fields), behind "
         "Chunk and ChunkWithPayment headers; plus the exhaustive sweep of all 2^24 three-byte headers through "
         "RecordHeader::from_record; every Request / Response variant (all NetworkAddress forms, Ok and eleven Err payloads, "
-        "0-40 keys / proofs / peers) through the CBOR codec functions and rmp-serde, and truncations / bit flips of the CBOR.  Distinct/non-trivial by (op, kind, outcome class, size class)")
+        "0-40 keys / proofs / peers; each of the 17 Error variants with its payload in each of the 7 places of a Response that can carry an "
+        "Error) through the real libp2p CBOR codec and rmp-serde, and truncations / bit flips of the CBOR.  Distinct/non-trivial by (op, kind, outcome class, size class)")
 ASSUMPTIONS = [
     "serde-derive symmetry (Deserialize inverts Serialize for the derived types) and the totality of the third-party typed "
     "decoders (rmp-serde, blsttc point validation, bytes) are validated by the correspondence run, not proved",
     "the recorded serde call tree (harness module rec) is normalised as documented in coq/lib/Serde.v; "
     "XorName::from_content is SHA3-256 (checked against hashlib on every decoded chunk)",
-    "Request/Response messages go through the two cbor4ii functions libp2p's request_response::cbor codec consists of (its "
-    "Codec type is private); the CBOR model (coq/lib/Cbor.v) decodes canonically (fields in declaration order, definite "
+    "Request/Response messages go through the real libp2p request_response::cbor codec (its private Codec type is recovered "
+    "through the public cbor::Behaviour alias; write_request/read_request, write_response/read_response on in-memory "
+    "cursors), and cbor4ii::serde::{to_vec,from_slice} must agree with it; the CBOR model (coq/lib/Cbor.v) decodes canonically (fields in declaration order, definite "
     "lengths) -- cbor4ii's own decoder leniency and its behaviour on malformed input are validated (no panic, stable "
     "re-encoding), not modelled"]
 
@@ -305,13 +307,16 @@ def rnd_rtype(rng):
     return {"t": t, "x": rnd_hex(rng, 32)} if t == "non" else {"t": t}
 
 
-ERRORS = ["ChunkDoesNotExist", "RegisterNotFound", "RegisterAlreadyClaimed", "RegisterRecordNotFound",
-          "ReplicatedRecordNotFound", "GetStoreQuoteFailed", "QuoteGenerationFailed", "RecordHeaderParsingFailed",
-          "RecordParsingFailed", "ScratchpadCipherTextInvalid", "UserDataDirectoryNotObtainable"]
+ERRORS = ["UserDataDirectoryNotObtainable", "CouldNotObtainPortFromMultiAddr", "ParseRetryStrategyError",
+          "CouldNotObtainDataDir", "ChunkDoesNotExist", "RegisterNotFound", "RegisterAlreadyClaimed",
+          "RegisterRecordNotFound", "ScratchpadHexDeserializeFailed", "ScratchpadCipherTextFailed",
+          "ScratchpadCipherTextInvalid", "GetStoreQuoteFailed", "QuoteGenerationFailed", "ReplicatedRecordNotFound",
+          "RecordHeaderParsingFailed", "RecordParsingFailed", "RecordExists"]     # all 17 variants of error.rs
 
 
-def rnd_err(rng):
-    return {"e": rng.choice(ERRORS), "a": rnd_addr(rng), "b": rnd_addr(rng), "x": rnd_hex(rng, 32), "i": rng.randrange(8)}
+def rnd_err(rng, which=None):
+    return {"e": which or rng.choice(ERRORS), "a": rnd_addr(rng), "b": rnd_addr(rng), "x": rnd_hex(rng, 32),
+            "i": rng.randrange(8), "k": rnd_hex(rng, rng.choice([0, 1, 23, 24, 32, 32, 40, 300]))}
 
 
 def rnd_res(rng, ok):
@@ -370,10 +375,28 @@ def rnd_response(rng, m):
             "sig": None if rng.random() < 0.5 else rnd_hex(rng, rng.choice([0, 64]))}
 
 
+def error_carriers(rng, err):
+    """one response per place of the Response type that can hold a protocol Error, holding `err`"""
+    q = rnd_proof(rng)
+    while not q:
+        q = rnd_proof(rng)
+    proofs_err = [[rnd_addr(rng), {"data": "00", "nonce": 1}], [rnd_addr(rng), err]]
+    return [{"m": "Replicate", "r": err}, {"m": "PeerConsideredAsBad", "r": err},
+            {"m": "GetStoreQuote", "r": err, "a": rnd_addr(rng), "proofs": []},
+            {"m": "GetStoreQuote", "r": {"q": q[0]}, "a": rnd_addr(rng), "proofs": proofs_err},
+            {"m": "GetReplicatedRecord", "r": err}, {"m": "GetRegisterRecord", "r": err},
+            {"m": "GetChunkExistenceProof", "proofs": proofs_err}]
+
+
 def gen_messages(ctx):
     rng = ctx.rng
     n = 4 if ctx.tier == "quick" else 60
     cases = []
+    # every Error variant (with its payload) in every position of a Response that can carry an Error
+    for rep in range(1 if ctx.tier == "quick" else 6):
+        for e in ERRORS:
+            for v in error_carriers(rng, rnd_err(rng, e)):
+                cases.append({"op": "msg", "ty": "response", "family": "error:" + e, "v": v})
     for m in REQUESTS:
         cases += [{"op": "msg", "ty": "request", "v": rnd_request(rng, m)} for _ in range(n)]
     for m in RESPONSES:
@@ -593,15 +616,17 @@ def oracle(c, o):
             v.append(("roundtrip", "%s decodes to a value with a different serde tree" % kind))
     elif c["op"] == "msg":
         if not (o["cbor_ok"] and o["cbor_rt"]):
-            v.append(("message-roundtrip", "%s %s does not survive the CBOR wire codec (decoded=%s, equal=%s)"
-                      % (c["ty"], c["v"]["m"], o["cbor_ok"], o["cbor_rt"])))
+            v.append(("message-roundtrip", "%s %s%s does not survive the libp2p request_response::cbor codec "
+                      "(decoded=%s, equal=%s, %s)" % (c["ty"], c["v"]["m"], " [%s]" % c["family"] if c.get("family") else "",
+                                                      o["cbor_ok"], o["cbor_rt"], o.get("wire_err"))))
+        if not (o["direct_same"] and o["direct_rt"]) and o["cbor_ok"] and o["cbor_rt"]:
+            v.append(("message-roundtrip", "%s %s: cbor4ii::serde::{to_vec,from_slice} disagree with the codec "
+                      "(same bytes=%s, round trip=%s)" % (c["ty"], c["v"]["m"], o["direct_same"], o["direct_rt"])))
         if not o["rmp_rt"]:
             v.append(("message-roundtrip", "%s %s does not survive rmp-serde (its serde impls are not inverse)" % (c["ty"], c["v"]["m"])))
         if o.get("cbor") and o.get("ntree") is not None and cbor_tree(o["ntree"]).hex() != o["cbor"]:
             v.append(("message-wire-format", "%s %s: the codec's bytes differ from the CBOR encoding (maps keyed by field name, "
                       "externally tagged enums) of the value's serde tree" % (c["ty"], c["v"]["m"])))
-        if not o["cbor_within_cap"]:
-            v.append(("message-size", "%s %s encodes to %d bytes, above the codec's size cap" % (c["ty"], c["v"]["m"], o["cbor_len"])))
     elif c["op"] == "msg_decode":
         for ty in ("request", "response"):
             if o[ty + "_ok"] and o[ty + "_stable"] is False:
@@ -732,7 +757,7 @@ def nontrivial(c, o):
         val = o.get("value") or {}
         return (c["op"], c.get("family"), c["as"], o["header"], bool(val.get("ok")))
     if c["op"] == "msg":
-        return (c["op"], c["ty"], c["v"]["m"], "e" in (c["v"].get("r") or {}), min(o["cbor_len"].bit_length(), 14))
+        return (c["op"], c["ty"], c["v"]["m"], c.get("family") or ("e" in (c["v"].get("r") or {})), min(o["cbor_len"].bit_length(), 14))
     if c["op"] == "msg_decode":
         return (c["op"], c.get("family"), o["request_ok"], o["response_ok"])
     return (c["op"],)
